@@ -8,7 +8,7 @@ from __future__ import annotations
 
 from typing import Any, Dict, List, Optional
 
-from ..kit import Ctx, calls, calls_target, kw, loops, nf_cmp, normal_paths, poly_of, rule, short, stores
+from ..kit import caller_ok, Ctx, calls, calls_target, kw, loops, nf_cmp, normal_paths, poly_of, rule, short, stores
 from ..paths import Event, Path
 from ..terms import NONE, Term, Unrecognised, cmp_nf, key, strip_ver, subterms
 from .c15 import _sub_ref
@@ -32,10 +32,10 @@ def r1(ctx: Ctx) -> None:
         ctx.check(bool(run) and run[0] is True and first in ("self._is_running", "self.is_running"), f, effs[0].node, "the running test is decided true before any effect of a fill", "first decision: self.is_running", f"first decision: {first}")
     ctx.require(n >= 1, f"{EXO}: no path with effects")
     for s in ctx.cg.sites_calling(EXO):
-        ctx.check(s.caller.qualname == "Market._execution", s.caller, s.node, f"caller of {EXO}", "Market._execution", s.caller.qualname)
+        ctx.check(caller_ok(ctx, s.caller, lambda g: g.qualname == "Market._execution"), s.caller, s.node, f"caller of {EXO}", "Market._execution", s.caller.qualname)
     made = [s for s in ctx.cg.sites if s.how == "ctor" and s.name == "ExecutionLog"]
     for s in made:
-        ctx.check(s.caller.qualname == EXO, s.caller, s.node, "fill records are created only by the fill routine", EXO, s.caller.qualname)
+        ctx.check(caller_ok(ctx, s.caller, lambda g: g.qualname == EXO), s.caller, s.node, "fill records are created only by the fill routine", EXO, s.caller.qualname)
     ctx.require(len(made) >= 1, "no ExecutionLog construction found")
 
 
